@@ -10,7 +10,7 @@ mods = [(m, m.split(".")[-1][:3]) for m in sorted(imported)] + sorted((m, pid) f
 for mod, pid in mods:
     src = open(os.path.join(ROOT, "lean", mod.replace(".", "/") + ".lean")).read()
     thms = []
-    pat = "Tie" if ".Tie" in mod else ("E2E_" + pid if ".E2E." in mod else pid)
+    pat = "Tie" if ".Tie" in mod else ("E2E_" + pid if (".E2E." in mod or ".E2E2." in mod) else pid)
     for m in re.finditer(r"(/--(?:(?!-/).)*-/\s*)?theorem\s+(%s_\w+'?)" % pat, src, flags=re.S):
         doc = re.sub(r"\s+", " ", (m.group(1) or "").replace("/--", "").replace("-/", "")).strip()
         thms.append(dict(name="Low." + m.group(2), module=mod, clause=doc[:300] or m.group(2)))
